@@ -169,6 +169,7 @@ type Frame struct {
 	retPCs  []string
 	rets    []retInfo
 	labels  map[string]*State
+	labelPC map[string]string // path condition under which the label was passed
 	allocByName map[string][]*ssa.Alloc
 	curBlock *ssa.BasicBlock
 	curLoopHdr *ssa.BasicBlock
